@@ -37,14 +37,25 @@ class Broken(Exception):
         self.detail = detail
 
 
-def sh(cmd, timeout, cwd=None, env=None, input=None):
+def _limit_mem(gb):
+    def f():
+        import resource
+        try:
+            resource.setrlimit(resource.RLIMIT_AS, (gb << 30, gb << 30))
+        except Exception:
+            pass
+    return f
+
+
+def sh(cmd, timeout, cwd=None, env=None, input=None, mem_gb=None):
     e = dict(os.environ)
     e.update({"CARGO_NET_OFFLINE": "true"})
     if env:
         e.update(env)
     try:
         p = subprocess.run(cmd, cwd=cwd, env=e, input=input, stdout=subprocess.PIPE,
-                           stderr=subprocess.STDOUT, timeout=timeout, text=True)
+                           stderr=subprocess.STDOUT, timeout=timeout, text=True,
+                           preexec_fn=_limit_mem(mem_gb) if mem_gb else None)
         return p.returncode, p.stdout
     except subprocess.TimeoutExpired as ex:
         out = ex.stdout or ""
@@ -113,12 +124,13 @@ def grep_forbidden():
     return bad
 
 
-def build_coq(targets=None, timeout=3000):
+def build_coq(targets=None, timeout=1800):
     """make the .vo files (full build, no -vos). Returns make's output. Raises Broken if a
     requested target does not build."""
     with Lock("coq"):
         write_coqproject()
-        rc, out = sh(["make", "-k", "-j%d" % NPROC] + (targets or []), timeout, cwd=COQ)
+        # a proof script that diverges must not eat the machine: 8 GiB address space per coqc, bounded time
+        rc, out = sh(["make", "-k", "-j%d" % NPROC] + (targets or []), timeout, cwd=COQ, mem_gb=8)
         if rc != 0:
             raise Broken("coq build: " + " ".join(targets or ["all"]), out[-6000:])
         return out
@@ -158,6 +170,21 @@ def print_assumptions(prop_id, module, thms):
             if m2:
                 res[cur].append(m2.group(1))
     return res
+
+
+def coqchk(prop_id, timeout=1800):
+    """independent re-check of the compiled property file and everything it depends on; returns the list of axioms"""
+    rc, out = sh(["coqchk", "-o", "-silent", "-Q", COQ, "V", "V.Properties.%s" % prop_id], timeout, cwd=COQ, mem_gb=12)
+    if rc != 0:
+        raise Broken("coqchk V.Properties.%s" % prop_id, out[-3000:])
+    m = re.search(r"\* Axioms:(.*?)\n\s*\n\* Constants/Inductives relying on type-in-type:(.*?)\n\s*\n\* Constants/Inductives relying on unsafe \(co\)fixpoints:(.*?)\n\s*\n\* Inductives whose positivity is assumed:(.*?)\n", out + "\n\n", flags=re.S)
+    if not m:
+        raise Broken("coqchk output not understood", out[-2000:])
+    ax = [x.strip() for x in m.group(1).strip().splitlines() if x.strip() and x.strip() != "<none>"]
+    for k, name in ((2, "type-in-type"), (3, "unsafe fixpoints"), (4, "assumed positivity")):
+        if m.group(k).strip() != "<none>":
+            raise Broken("coqchk reports %s" % name, m.group(k))
+    return ax
 
 
 # ----------------------------------------------------------------------------- model + harness
